@@ -149,7 +149,7 @@ func init() {
 					out = append(out, drv.Scenario{Kind: "wrapper", Seed: seed + int64(r), Params: mustJSON(c20Params{Cases: []c20Case{c}}), TimeoutS: to, Solo: true})
 				}
 			}
-			for _, k := range []string{"before", "after", "simultaneous", "dispatch-error", "late-many"} {
+			for _, k := range []string{"before", "after", "simultaneous", "dispatch-error", "late-many", "late-into-next"} {
 				n := 1
 				if tier == "thorough" {
 					n = 20
@@ -288,6 +288,57 @@ func c20AsyncOp(c c20Case) drv.Result {
 			cancel()
 			if !ret || p != nil || rp != nil {
 				return viol("race", fmt.Sprintf("completion racing with the deadline: Wait returned=%v panic=%v, Resolve panic=%v", ret, p, rp))
+			}
+		}
+	case "late-into-next":
+		// the completion of a call that timed out arrives while a LATER call (which the server never answers) is waiting: the
+		// later call still ends at its own deadline, with an error and a cancelled operation - not with the earlier call's outcome
+		for i := 0; i < 25; i++ {
+			ctx1, cancel1 := context.WithTimeout(context.Background(), 10*time.Millisecond)
+			op1 := couchbase.NewAsyncOp(ctx1)
+			pf1 := &pendingFake{cancelled: make(chan struct{})}
+			var err1 error
+			p, ret := call(func() { err1 = op1.Wait(pf1, nil) })
+			cancel1()
+			if !ret || p != nil || err1 == nil {
+				return viol("outcome", fmt.Sprintf("silent operation: Wait returned=%v panic=%v err=%v", ret, p, err1))
+			}
+			ctx2, cancel2 := context.WithTimeout(context.Background(), 150*time.Millisecond)
+			op2 := couchbase.NewAsyncOp(ctx2)
+			pf2 := &pendingFake{cancelled: make(chan struct{})}
+			type out struct {
+				err error
+				p   any
+			}
+			done := make(chan out, 1)
+			go func() {
+				var o out
+				defer func() { o.p = recover(); done <- o }()
+				o.err = op2.Wait(pf2, nil)
+			}()
+			time.Sleep(15 * time.Millisecond)
+			if p, ret := call(func() { op1.Resolve() }); !ret || p != nil {
+				cancel2()
+				return viol("late-completion-blocks", fmt.Sprintf("a completion arriving after the deadline: returned=%v panic=%v", ret, p))
+			}
+			var o out
+			select {
+			case o = <-done:
+			case <-time.After(5 * time.Second):
+				cancel2()
+				return viol("blocked", "Wait on a silent operation did not return by its deadline")
+			}
+			cancel2()
+			if o.p != nil {
+				return viol("race", fmt.Sprintf("Wait panicked: %v", o.p))
+			}
+			if o.err == nil {
+				return viol("invented-outcome", fmt.Sprintf("round %d: a call the server never answered reported success when the late completion of an EARLIER, timed-out call arrived", i))
+			}
+			select {
+			case <-pf2.cancelled:
+			default:
+				return viol("not-cancelled", "deadline expired but the pending operation was not cancelled")
 			}
 		}
 	case "dispatch-error":
